@@ -3,7 +3,7 @@
    (extracted to OCaml, or evaluated inside Coq with vm_compute on the same text).
    Definitions only. *)
 From Coq Require Import String.
-From PC Require Export Model.Circuit Model.Entropy Model.Parse Model.Random Model.Diag.
+From PC Require Export Model.Circuit Model.Entropy Model.Parse Model.Random Model.Diag Model.Index.
 Open Scope Z_scope.
 
 Inductive val := VZ (z : Z) | VL (l : list val) | VE (code : Z).
@@ -163,6 +163,14 @@ Definition run (name : string) (a : val) : val :=
   else if is name "parse_dict" then eOptE ePauli (parse_dict (dN a0) (dL (fun v => (dZ (arg v 0), dZ (arg v 1))) a1))
   else if is name "repr" then eL VZ (repr_pauli (dPauli a0))
   else if is name "tokenize" then eL VZ (tokenize (dPauli a0))
+  (* ---- indexing ---- *)
+  else if is name "get_int" then eOptE ePauli (get_int (dPlist a0) (dZ a1))
+  else if is name "get_slice" then ePlist (get_slice (dPlist a0) (dOpt dZ a1) (dOpt dZ a2))
+  else if is name "get_mask" then ePlist (get_mask (dPlist a0) (dMask a1))
+  else if is name "get_idx" then eOptE ePlist (get_idx (dPlist a0) (dL dZ a1))
+  else if is name "list_neg" then ePlist (list_neg (dPlist a0))
+  else if is name "list_rmul" then ePlist (list_rmul (dZ a0) (dPlist a1))
+  else if is name "list_weight" then eL VZ (list_weight (dPlist a0))
   (* ---- random (as functions of the drawn bits) ---- *)
   else if is name "fix_pair" then let '(g1, g2) := fix_pair (dStr a0) (dStr a1) in VL [eStr g1; eStr g2]
   else if is name "diag1" then eL eStr (diagonalize1 (dStr a0) (dN a1))
